@@ -117,10 +117,10 @@ func checkC19(c c19Case, rec *Rec) *Violation {
 		kinds = append(kinds, "closed-fd-first-list-only")
 	}
 	// the storage is closed and the process then opens other files, which get the descriptor numbers of the lists
-	kinds = append(kinds, "close-then-descriptors-reused")
+	kinds = append(kinds, "close-then-descriptors-reused", "closed-fd-then-close")
 	for _, kind := range kinds {
 		for k := 0; k <= n; k++ {
-			if kind == "close-then-descriptors-reused" && k != 1 && k != n/2+1 {
+			if (kind == "close-then-descriptors-reused" || kind == "closed-fd-then-close") && k != 1 && k != n/2+1 {
 				continue // two fault points are enough for this kind (it needs a rule loaded before the fault)
 			}
 			en, fls, cleanup0, err := c19Engines(c.Lists)
@@ -151,6 +151,14 @@ func checkC19(c c19Case, rec *Rec) *Violation {
 								decoys = append(decoys, d)
 							}
 						}
+					case "closed-fd-then-close":
+						// two faults: the handles are replaced by closed ones, then the storage is closed (which fails)
+						for _, fl := range fls {
+							old := fl.File
+							fl.File = closedFile()
+							_ = old.Close()
+						}
+						_ = en.st.Close()
 					case "closed-fd":
 						for _, fl := range fls {
 							old := fl.File
